@@ -652,7 +652,27 @@ pub fn get_args_2(args: &[SigNode]) -> (r: Result<(Signature, Signature), SigChe
     unimplemented!()
 }
 
+pub uninterp spec fn try_sig_spec(args: Seq<SigNode>) -> Signature;
+/// `algorithm::try_sig` is shared by the checker's Try arm and by the run-time `try_` (E3 obligations
+/// C11.e3.try_sig.fits.* are on its real body); here it is an uninterpreted function of the operand list.
+#[verifier::external_body]
+pub fn try_sig(args: &[SigNode]) -> (r: (Signature, bool))
+    ensures r.0 == try_sig_spec(args@),
+{
+    unimplemented!()
+}
+
 impl VirtualEnv {
+    /// IH-checker for a child node (ASSUMED): as `sig_node`, for `self.node(inner)`
+    #[verifier::external_body]
+    pub fn node(&mut self, n: &Node) -> (r: Result<(), SigCheckError>)
+        ensures
+            r.is_ok() ==> sv(final(self).stack) == app(sv(old(self).stack), node_sig(*n).args as int, node_sig(*n).outputs as int),
+            r.is_ok() ==> sv(final(self).under) == app(sv(old(self).under), node_sig(*n).under_args as int, node_sig(*n).under_outputs as int),
+            final(self).node_depth == old(self).node_depth,
+    {
+        unimplemented!()
+    }
     /// IH-checker (ASSUMED): checking an operand acts on both virtual stacks exactly as its
     /// recorded signature does (SigNode invariant: `sn.sig` is the signature the checker
     /// computed for `sn.node`; compositionality of `app` is lemma_app_compose, proved).
